@@ -119,6 +119,9 @@ def load_obj(
     # so now we have to turn them into numpy arrays and kwargs
     # for trimesh mesh and scene objects
     geometry = {}
+    # how many times each name was used so that finding a unique
+    # name isn't linear in the number of chunks with the same name
+    name_counts = {}
     while len(face_tuples) > 0:
         # consume the next chunk of text
         material, current_object, chunk = face_tuples.pop()
@@ -185,7 +188,7 @@ def load_obj(
             )
 
         # ensure the name is always unique
-        name = util.unique_name(name, geometry)
+        name = util.unique_name(name, geometry, counts=name_counts)
 
         # try to get usable texture
         mesh = kwargs.copy()
